@@ -554,12 +554,12 @@ Theorem C08_src_validated_mapped_value : forall m k, validated_mapped_value (ren
 Proof. exact generated_validated_mapped_value. Qed.
 
 (* the loop of _generate_schema_for_fields_internal: properties keyed by the renamed names in field order, with the
-   default copied in; the required list renamed field by field and extended by the defaulted keys *)
+   default copied in; the required list renamed entry by entry (each entry once: the list of the field names the
+   entries stand for is kept alongside) and extended by the keys of the defaulted fields that are not required *)
 Theorem C08_src_generate_schema_for_fields : forall pat_text ei h agg s2s defs_store rec m fs P R,
     (forall d, In d fs -> field_ready pat_text ei rec d) ->
     generate_schema_for_fields_internal h agg s2s defs_store rec (fields_dict pat_text ei fs) (ren_dict m) (PDict P) (strs R)
-    = Ok (PTuple [PDict (fst (fold_left (step pat_text ei m) fs (P, R)));
-                  strs (snd (fold_left (step pat_text ei m) fs (P, R)))]).
+    = Ok (PTuple [PDict (fst (run_fields pat_text ei m fs P R)); strs (snd (run_fields pat_text ei m fs P R))]).
 Proof. exact generated_generate_schema_for_fields. Qed.
 
 (* structure_to_schema on a class seen through the heap: the wrapper form is the bare field schema, any other class
